@@ -146,7 +146,7 @@ class Gen:
                 order.append(p)
             by[p].append("%s=%d" % (p, rng.randrange(0, 10)))
         items = [it for p in order for it in by[p]]
-        fl = rng.choice([0, 0, 0, 0, 0, 1, 2, 3]) | (4 if rng.random() < 0.08 else 0)
+        fl = rng.choice([0, 0, 0, 0, 0, 1, 2, 3]) | (4 if rng.random() < 0.08 else 0) | (16 if rng.random() < 0.35 else 0)
         return ("s:%d:%d:%s" % (k, fl, "&".join(items))) if sep == ":" else ("s~%d~%s" % (fl, "&".join(items)))
 
     def rem_cmd(self, k, sep):
@@ -251,6 +251,12 @@ DIRECTED_M = [
     "a;a;s:0:0:a=1;nb:1:99:g~a;nb:1:100:g~a;nb:1:101:g~a;nb:1:102:pi~5;nb:1:100:pi~6",
     # a non-reading subscriber while nodes come and go; then it leaves with a full queue
     "a;a;a;p:1:0:*&*/*;x:1:1;s:0:0:a=1&a/b=2;s:2:0:c=3;r:0:0:a;d:2;jr:1:a/b;d:1",
+    # ENABLESUPERCEDE: the scan of the subscriber's outgoing queue (most recent update of the node goes, emptied Messages leave),
+    # the pending Message pruned first (same node twice in one SETDATA), filters, creation, a reading subscriber
+    "a;a;p:1:0:*;x:1:1;s:0:0:a=1;s:0:16:a=2;s:0:16:a=3;s:0:0:b=1;s:0:16:a=4&b=5;s:0:16:b=6;x:1:0",
+    "a;a;p:1:0:*;m:1:50;x:1:1;s:0:0:a=1&b=2;s:0:0:a=3&c=4;s:0:16:a=5;s:0:16:a=6&a=7&a=8;s:0:16:c=9;jr:1:b;s:0:16:b=1;x:1:0",
+    "a;a;a;p:1:0:*@g3;p:2:0:*;x:1:1;s:0:16:a=5;s:0:16:a=7;s:0:16:a=1;s:0:16:a=9;s:0:18:a=4;s:0:17:zz=1;s:0:16:zz/y=1;s:0:16:zz/y=2;x:1:0",
+    "a;a;p:1:0:*&*/*;x:1:1;s:0:16:a/b=1;s:0:16:a/b=2;r:0:0:a;s:0:16:a/b=3;s:0:16:a=4;s:0:20:a=5;b:0:s~16~a=6+s~16~a=7+g~a;x:1:0",
     # max items 1: many small Messages in the queue
     "a;a;p:1:0:*;m:1:1;x:1:1;s:0:0:a=1&b=2&c=3;s:0:0:a=4&b=5;jr:1:b;jr:1:a@g3;x:1:0",
 ]
@@ -495,7 +501,8 @@ class CHECK(vlib.Check):
                 "(unimplemented / access denied), JETTISONRESULTS -> JettisonOutgoingResults (removed-strings loop, per-field item loop with the "
                 "index it passes to RemoveData, emptied Messages leaving the queue), JETTISONDATATREES -> JettisonOutgoingSubtrees, GETDATATREES "
                 "(reply id + matched roots), AfterMessageReceivedFromGateway/PushSubscriptionMessages (while-dirty loop on fuel), NodeChangedAux "
-                "recursion with its nest counter, DataNode::RemoveChild recursion, the supersede scan; the gateway's outgoing Message queue of a "
+                "recursion with its nest counter, DataNode::RemoveChild recursion, SETDATA with SETDATANODE_FLAG_ENABLESUPERCEDE (pending Message "
+                "pruned, else the supersede scan of the subscriber's outgoing queue); the gateway's outgoing Message queue of a "
                 "client that has stopped reading (no writable socket -> no DoOutput).  Not modelled (flood stream: oracle + sanitizers only): "
                 "arbitrary what-codes and field types, real regex / QueryFilter evaluation of hostile patterns and archives, parameters other "
                 "than subscriptions, client-to-client Messages, ordered indices, keep-alive, reply encoding, sockets and select.")
